@@ -802,9 +802,10 @@ func (r *runningStep) State() step.RunningStepState {
 	r.lock.Lock()
 	defer r.lock.Unlock()
 	tempState := r.state
-	if tempState == step.RunningStepStateWaitingForInput && r.currentStageInputAvailable() {
-		// The input the step is waiting for has been provided already; it just has not picked it up yet.
-		// That is progress that is still to come, so the step must not be mistaken for a stuck one.
+	if tempState == step.RunningStepStateWaitingForInput && (r.currentStageInputAvailable() || r.ctx.Err() != nil) {
+		// The input the step is waiting for has been provided already, or it has been told to stop; it just
+		// has not picked that up yet. That is progress that is still to come, so the step must not be
+		// mistaken for a stuck one.
 		return step.RunningStepStateRunning
 	}
 	return tempState
